@@ -35,6 +35,7 @@ import (
 	"fmt"
 	"math"
 	"strconv"
+	"strings"
 
 	"github.com/XiaoMi/Gaea/mysql"
 	"github.com/XiaoMi/Gaea/util"
@@ -43,38 +44,75 @@ import (
 var p = &mysql.Field{Name: []byte("?")}
 var c = &mysql.Field{}
 
+// CalcParams finds the parameter markers of a prepared statement: every '?'
+// outside string literals, quoted identifiers and comments.
 func CalcParams(sql string) (count int, offsets []int, sqlItems []string, err error) {
-	quoteChar := ""
 	offsets = make([]int, 0)
 	sqlItems = make([]string, 0)
 	subBeginIndex := 0
+	n := len(sql)
 
-	for i, elem := range []byte(sql) {
-		if elem == '\\' {
-			continue
-		} else if elem == '"' || elem == '\'' {
-			if quoteChar == "" {
-				quoteChar = string(elem)
-			} else if quoteChar == string(elem) {
-				quoteChar = ""
+	for i := 0; i < n; {
+		ch := sql[i]
+		switch {
+		case ch == '\'' || ch == '"' || ch == '`':
+			// string literal or quoted identifier: it ends at the matching quote.
+			// A doubled quote does not end it, nor does (in strings) a quote
+			// escaped with a backslash.
+			closed := false
+			i++
+			for i < n {
+				if sql[i] == '\\' && ch != '`' {
+					i += 2
+					continue
+				}
+				if sql[i] == ch {
+					if i+1 < n && sql[i+1] == ch {
+						i += 2
+						continue
+					}
+					closed = true
+					i++
+					break
+				}
+				i++
 			}
-		} else if quoteChar == "" && elem == '?' {
+			if !closed {
+				// quote char not match
+				err = fmt.Errorf("fatal situation")
+				return
+			}
+		case ch == '#', ch == '-' && i+1 < n && sql[i+1] == '-' && (i+2 == n || sql[i+2] <= ' '):
+			// comment to the end of the line
+			for i < n && sql[i] != '\n' {
+				i++
+			}
+		case ch == '/' && i+1 < n && sql[i+1] == '*':
+			if i+2 < n && sql[i+2] == '!' {
+				// /*! MySQL-specific code */ is executed, keep scanning inside it
+				i += 3
+				continue
+			}
+			end := strings.Index(sql[i+2:], "*/")
+			if end < 0 {
+				i = n
+			} else {
+				i += 2 + end + 2
+			}
+		case ch == '?':
 			count++
 			offsets = append(offsets, i)
 			sqlItems = append(sqlItems, sql[subBeginIndex:i], "?")
 			subBeginIndex = i + 1
+			i++
+		default:
+			i++
 		}
 	}
 
 	// sub string behind the last "?", eg: select * from t where id = ? limit 1
 	if subBeginIndex != len(sql) {
 		sqlItems = append(sqlItems, sql[subBeginIndex:])
-	}
-
-	// quote char not match
-	if quoteChar != "" {
-		err = fmt.Errorf("fatal situation")
-		return
 	}
 
 	return
